@@ -292,8 +292,8 @@ pub fn styled_hist_case(g: G) -> BoxedStrategy<HistCase> {
 pub fn property() -> Property {
     // ids / anchor names: fragment markers exist only in the line-oriented routes and must not
     // make them differ from the string routes
-    let g = G::default().with_ids().with_digit_sup();
-    let g2 = G::default().with_ids().with_digit_sup();
+    let g = G::default().with_ids().with_digit_sup().with_pre_inline();
+    let g2 = G::default().with_ids().with_digit_sup().with_pre_inline();
     Property {
         id: "C10",
         level: "exploration",
@@ -302,8 +302,8 @@ pub fn property() -> Property {
         hang_is_violation: false,
         subs: vec![
             PropSub::new("history", 12_000, 120_000, move || hist_case(g.clone(), false), check_history).with_validity(|c| c.doc.valid() && !c.ops.is_empty()).boxed(),
-            PropSub::new("history_styled", 8_000, 80_000, move || styled_hist_case(G::default().with_ids().with_digit_sup()), check_history).with_validity(|c| c.doc.valid() && !c.ops.is_empty()).boxed(),
-            PropSub::new("shared_dom", 6_000, 60_000, move || shared_dom_case(G::default().with_ids().with_digit_sup()), check_shared_dom).with_validity(|c| c.doc.valid() && !c.steps.is_empty() && c.steps.iter().all(|(b, r, _)| b.doc_css == r.doc_css && b.user_css == r.user_css && b.agent_css == r.agent_css && build_time_decorate(b) == build_time_decorate(r))).boxed(),
+            PropSub::new("history_styled", 8_000, 80_000, move || styled_hist_case(G::default().with_ids().with_digit_sup().with_pre_inline()), check_history).with_validity(|c| c.doc.valid() && !c.ops.is_empty()).boxed(),
+            PropSub::new("shared_dom", 6_000, 60_000, move || shared_dom_case(G::default().with_ids().with_digit_sup().with_pre_inline()), check_shared_dom).with_validity(|c| c.doc.valid() && !c.steps.is_empty() && c.steps.iter().all(|(b, r, _)| b.doc_css == r.doc_css && b.user_css == r.user_css && b.agent_css == r.agent_css && build_time_decorate(b) == build_time_decorate(r))).boxed(),
             PropSub::new("history_mutated", 4_000, 40_000, move || hist_case(g2.clone(), true), check_history).with_validity(|c| c.doc.valid() && !c.ops.is_empty()).boxed(),
             FuzzSub { name: "fuzz_render", target: "fuzz_render", props: &["C10"], seconds: 120 }.boxed(),
         ],
